@@ -46,7 +46,7 @@ WALL_CAP_S = 1500
 
 
 def count(tier):
-    return 160 if tier == "quick" else 3000
+    return 160 if tier == "quick" else 2400
 
 
 def exhaustive(tier):
@@ -57,7 +57,7 @@ def make(i, base_seed, tier):
     seed = base_seed * 1_000_003 + i
     rng = stream(seed, "work")
     kr = stream(seed, "knobs")
-    big = tier == "thorough" and i % 10 == 0
+    big = tier == "thorough" and i % 15 == 0
     n = rng.randint(6, 12) if big else rng.randint(1, 4)
     ids = rng.sample(range(1, 256), n)
     lossy = rng.random() < 0.2 and not big
@@ -156,6 +156,8 @@ def _run(scn, w, res):
                     return (None, node.lookup_node_id())
                 if of == "unknown":
                     return (0o3, node.lookup_node_id(0o3) if 0o3 not in [n.node.node_address for n in net.nodes.values()] else None)
+                if of not in net.nodes:
+                    return (0o3, None)
                 a = net.nodes[of].node.node_address
                 return (a, node.lookup_node_id(a))
             if o == "send":
@@ -261,7 +263,7 @@ def _run(scn, w, res):
                     connected = False
                     if nc.node.node_address != 0o4444 and c is lst[-1][1]:
                         res.add("release", {"kind": "address_kept"}, "release_address() returned True but node id %d is still at %o" % (nid, nc.node.node_address))
-                    if c is lst[-1][1] and nid in final:
+                    if c is lst[-1][1] and nid in final and isolated(nid, c, (197,)):
                         res.add("release", {"kind": "lease_kept"}, "release_address() returned True but the master still maps id %d to %o" % (nid, final[nid]))
                 elif connected and r is not True and isolated(nid, c, (197,)):
                     res.add("release", {"kind": "release_failed"}, "release_address() on connected id %d returned %r on a loss-free medium" % (nid, r))
@@ -308,7 +310,8 @@ def _run(scn, w, res):
                     elif got == -1 and isolated(nid, c):
                         res.add("lookup", {"kind": "no_answer"}, "lookup_node_id(%o) = -1 (no answer) on a loss-free medium with no other call in progress anywhere" % a)
             elif o == "check":
-                if bool(r) != connected:
+                # (a negative answer under concurrent traffic may be a lost ping/lookup: best effort)
+                if bool(r) != connected and (r or isolated(nid, c, (196, 198, 130))):
                     res.add("connected", {"kind": "check_connection", "ping": op["ping"], "connected": connected},
                             "check_connection(ping_master=%s) on id %d = %r, node %s connected" % (op["ping"], nid, r, "is" if connected else "is not"))
             elif o == "send":
@@ -321,7 +324,7 @@ def _run(scn, w, res):
                 if connected and tgt_conn and len(data) <= 24 and tgt is not None:
                     hit = [e for e in tgt.log if e[4] == data and e[3] == op["type"]]
                     stable = all(to == 0 or tab.get(to) == tables(c.t0, c.t1)[0].get(to) for tab in tables(c.t0, c.t1))
-                    if r is True and not hit and stable:
+                    if r is True and not hit and stable and isolated(nid, c, (196, 198, 193, op["type"])):
                         res.add("reach", {"kind": "not_delivered"}, "send(to id %d) from id %d returned True but the message is not in that node's log" % (to, nid))
                     elif r is not True and stable and isolated(nid, c, (196, 198, 193, op["type"])) and final.get(to) is not None and to in ids and net.nodes[to].node.node_address == final.get(to):
                         res.add("reach", {"kind": "send_failed"}, "send(to id %d) from connected id %d returned %r on a loss-free medium" % (to, nid, r))
@@ -332,8 +335,8 @@ def _run(scn, w, res):
         seen = {}
         for nid in ids:
             a = net.nodes[nid].node.node_address
-            if a == 0o4444:
-                continue
+            if a == 0o4444 or final.get(nid) != a:
+                continue   # connected = the master's table agrees (a release whose outcome was lost to cross traffic is best effort)
             if a in seen:
                 res.add("join", {"kind": "duplicate_address"}, "ids %d and %d both ended at address %o" % (seen[a], nid, a))
             seen[a] = nid
